@@ -300,6 +300,15 @@ def fam_reject(rng):
 
 def fam_lineno(rng):
     rs = rules.gen_ruleset(rng, p_trail=0.2, p_chain=rng.choice([0.0, 0.2]))
+    if rng.random() < 0.5:
+        # a head of fixed length before a trailing context of variable length that matches newlines: the newlines of the
+        # trailing context are counted when the rule matches and have to be taken back before its action runs
+        a, b, c = rng.choice([97, 98, 48]), rng.choice([97, 98, 99]), rng.choice([99, 97, 65])
+        head = rng.choice([('chr', a), ('str', [a, b])])
+        trail = rng.choice([('cat', ('plus', ('chr', 10)), ('chr', c)), ('plus', ('chr', 10)),
+                            ('cat', ('star', ('chr', 10)), ('chr', c)), ('cat', ('plus', ('alt', ('chr', 10), ('chr', 32))), ('chr', c))])
+        rs.rules.insert(rng.randrange(len(rs.rules) + 1),
+                        {'scs': [], 'all': False, 'bol': False, 'head': head, 'trail': trail, 'dollar': False})
     cfg = rt.Config(ledger=rng.random() < 0.5, backend=_backend(rng, cxx=True), topt=rng.choice(TOPTS), interactive=rng.choice([None, False]),
                     lineno=True, yymore=rng.random() < 0.5, array=rng.random() < 0.4)
     inner = _ops_case(kinds=['less', 'input', 'more', 'return'] if cfg.yymore else ['less', 'input', 'return'])
